@@ -492,14 +492,31 @@ class FakeEvent:
 
 
 class FakeSocket:
-    def __init__(self, data=b'', pos=0, sent=None, closed=False):
+    def __init__(self, data=b'', pos=0, sent=None, closed=False, connected=True):
         self.data = bytes(data)
         self.pos = pos
         self.sent = list(sent or [])
         self.closed = closed
+        # ghost life cycle (see _sock_usable): accepted / sampled connections are connected; a
+        # socket made by the patched socket.socket() is not, until connect()
+        self.connected = connected
         self._eof_reads = 0
 
+    def connect(self, addr=None):
+        self.connected = True
+
+    def bind(self, addr=None):
+        pass
+
+    def listen(self, n=0):
+        pass
+
+    def _usable(self):
+        if not self.connected:
+            raise OSError('socket is not connected')
+
     def recv(self, n):
+        self._usable()
         if self.pos < len(self.data):
             b = self.data[self.pos:self.pos + n]
             self.pos += len(b)
@@ -510,6 +527,7 @@ class FakeSocket:
         return b''
 
     def sendall(self, payload):
+        self._usable()
         self.sent.append(payload.decode('utf-8'))
 
     def close(self):
@@ -521,3 +539,42 @@ class FakeSocket:
 
     def __repr__(self):
         return f'FakeSocket(data={self.data!r}, pos={self.pos}, sent={self.sent!r})'
+
+
+class _FakeSocketModule:
+    """Stands in for the name `socket` inside bridge_env.network_bridge.socket_interface during a
+    native run: socket.socket(...) makes a FakeSocket that is not yet connected."""
+    AF_INET = 2
+    SOCK_STREAM = 1
+
+    @staticmethod
+    def socket(*a, **k):
+        return FakeSocket(connected=False)
+
+
+class native_world:
+    """Context manager for native runs of the real code: the constructors of operating-system
+    objects the code under contract calls (socket.socket, Queue, Event) make the native fakes, so
+    that the ghost fields the contracts speak about (sent, out, gets, closed, connected) exist on
+    the real run too.  Everything is put back on exit."""
+    PATCHES = (('bridge_env.network_bridge.socket_interface', 'socket', _FakeSocketModule),
+               ('bridge_env.network_bridge.server', 'Queue', FakeQueue),
+               ('bridge_env.network_bridge.server', 'Event', FakeEvent))
+
+    def __enter__(self):
+        import importlib
+        self.saved = []
+        for mod, name, val in self.PATCHES:
+            try:
+                m = importlib.import_module(mod)
+            except Exception:
+                continue
+            if hasattr(m, name):
+                self.saved.append((m, name, getattr(m, name)))
+                setattr(m, name, val)
+        return self
+
+    def __exit__(self, *a):
+        for m, name, val in self.saved:
+            setattr(m, name, val)
+        return False
